@@ -522,8 +522,7 @@ def import_dobs_string(content, full_output=False, separator_insertion=True):
         idl = []
         obs_names = []
         for name in names:
-            h = np.unique(deltad[name][i])
-            if len(h) == 1 and np.all(h == mean[i]):
+            if not np.any(maskd[name][i]):
                 continue
             repdeltas = []
             repidl = []
